@@ -217,3 +217,21 @@ CHECKS["C10"]["budget_s"] = {"quick": 100, "thorough": 1200}
 CHECKS["C10"]["rule"] += (" Sched runs: (program, schedule) cases in which an owner creates a heap, fills pages of it, and deletes / collects it while 1-2 other threads free blocks of that heap "
     "(schedules as in C02); oracle = C02 model + nothing lost at quiescence + no livelock; non-trivial there = the conflict rule held in a case with a heap delete/collect.")
 CHECKS["C10"]["assumptions"] += SCHED_ASSUME
+
+PURE = {"harness": "pure", "harness_src": "pure.c", "mi_as_harness_include": True}
+VARIANTS["pure-rel"] = dict(PURE, mi_flags=["-O2", "-DNDEBUG", "-DMI_BUILD_RELEASE", "-w"], harness_flags=[])
+VARIANTS["pure-dbg"] = dict(PURE, mi_flags=["-O1", "-g", "-DMI_DEBUG=3", "-w"], harness_flags=[])
+CHECKS["C16"] = {
+    "custom_run": True, "level": "exploration",
+    "rule": "cases = inputs of the size-class and address arithmetic: EXHAUSTIVE over all request sizes 0..2*MI_MEDIUM_OBJ_SIZE_MAX (bin size >= n, bins monotone, waste <= 25% above 64 bytes, "
+            "mi_good_size >= n, idempotent and equal to mi_usable_size(mi_malloc(n)) for all n <= 64 KiB by 65 553 real allocations), all slice counts 0..512 (span bin monotone, in range, "
+            "queue capacity >= count), fast division for every bin size and multiples of 8 up to 64 KiB x every block index of a page x remainders {0,1,d-1}, and for every bin size blocks on 3 "
+            "pages (+ large pages of 2..200 slices) x interior offsets {0,1,15,bs/2,4096,bs-1}: _mi_ptr_segment/_mi_ptr_page/_mi_page_ptr_unalign must recover the page and the block start; "
+            "GENERATED (seeded, around powers of two, SIZE_MAX, PTRDIFF_MAX): _mi_align_up/_mi_align_down/_mi_divide_up/_mi_clamp/_mi_wsize_from_size/mi_mul_overflow/mi_count_size_overflow/"
+            "mi_clz/mi_ctz/mi_bsr/mi_popcount against unsigned __int128 / naive-loop references. Non-trivial = a size where the bin changes, a power-of-two slice count, a non-power-of-two "
+            "divisor or block size at a non-zero interior offset, or a generated operand on a stated boundary (multiple/one-off of the alignment, product within 2^-20 of 2^64, popcount <=1 or "
+            ">=63); generated operands are deduplicated with a hash set, enumerated ones are distinct by construction.",
+    "exhaustive_note": "the enumerated parts are complete for their finite domains; the generated 64-bit operands are sampled",
+    "runs": [{"variant": "pure-rel"}, {"variant": "pure-dbg"}],
+    "assumptions": ["the harness #includes src/static.c to reach static functions and tables (observation only)", "Linux x86-64; 64-bit size classes only"],
+}
